@@ -701,6 +701,27 @@ func (w *qWorld) checkStats() {
 			}
 		}
 	}
+	// an acknowledged subscription is a real one: the connection is listed as
+	// a client of that channel of the live topic (C08: subscribe racing an
+	// ephemeral delete must end up on the new topic, not on the dying one)
+	for _, co := range w.cons {
+		if !co.Subscribed || co.Dead || co.expectClose || co.fatalSent || co.SubStep >= w.epoch || co.cl.Closed() {
+			continue
+		}
+		found := false
+		if sc := doc.channel(co.Topic, co.Channel); sc != nil {
+			for _, cl := range sc.Clients {
+				if cl.ClientID == co.cl.Name {
+					found = true
+				}
+			}
+		}
+		if !found {
+			w.violate("C08", "subscription-not-registered", "%s subscribed to %s (acknowledged in step %d, connection open) but /stats does not list it as a client of that channel", co.cl.Name, co.ck, co.SubStep)
+			w.violate("C01", "subscription-not-registered", "%s subscribed to %s (acknowledged in step %d, connection open) but /stats does not list it as a client of that channel", co.cl.Name, co.ck, co.SubStep)
+		}
+		w.rc.Probe("subscriptions_confirmed")
+	}
 	// registry: model vs stats (C08)
 	for name, t := range w.topics {
 		st := doc.topic(name)
